@@ -306,6 +306,37 @@ def run(ctx: core.Ctx):
         if not (np.array_equal(zm, zi) and np.array_equal(zm, zc)):
             if not (close(zm, zi, 1e-12) and close(zm, zc, 1e-12)):
                 ctx.disagree("E/F", "ws2d", inp, zm[:5].tolist(), dict(interpreted=zi[:5].tolist(), compiled=zc[:5].tolist()))
+    # compile-order probe in a fresh process: the wrapper kernels are the FIRST to request their callees' specialisations
+    import json, subprocess, sys
+    script = r"""
+import json, warnings
+warnings.filterwarnings("ignore")
+import numpy as np
+rng = np.random.default_rng(%d)
+cube = (rng.normal(size=(2, 2, 30)).cumsum(axis=-1) * 100 + 3000)
+cube[rng.random(cube.shape) < 0.2] = np.nan
+from hdc.algo.ops.autocorr import autocorr, autocorr_tyx, autocorr_1d_float
+res = {}
+for dt in ("float64", "float32"):
+    c = cube.astype(dt)
+    a = np.asarray(autocorr(c), dtype="float64")
+    b = np.asarray(autocorr_tyx(np.ascontiguousarray(np.moveaxis(c, -1, 0))), dtype="float64")
+    ref = np.array([[autocorr_1d_float.py_func(c[i, j].astype("float64")) for j in range(2)] for i in range(2)])
+    res[dt] = dict(yxt=a.tolist(), tyx=b.tolist(), ref=ref.tolist())
+print(json.dumps(res))
+""" % ctx.seed
+    r = subprocess.run([sys.executable, "-c", script], capture_output=True, text=True, timeout=900)
+    try:
+        res = json.loads(r.stdout.strip().split("\n")[-1])
+    except Exception:  # noqa: BLE001
+        raise core.Infra("compile-order worker failed: " + (r.stderr or r.stdout)[-400:])
+    for dt, v in res.items():
+        for k in ("yxt", "tyx"):
+            ctx.case(("order", dt, k))
+            ctx.count("fresh-process compile order")
+            if not np.allclose(np.array(v[k], dtype="float64"), np.array(v["ref"]), atol=2e-6):
+                ctx.fail("autocorr" if k == "yxt" else "autocorr_tyx", dict(dtype=dt, config="fresh process, wrapper kernel compiled first, float data with NaN"),
+                         v[k], v["ref"], note="compiled kernel must return what its source returns under the interpreter")
     ctx.notes["programs"] = sorted(programs)
     ctx.notes["n_programs"] = len(programs)
     ctx.trusted += ["CPython + NumPy + SciPy as the reference semantics of the source", "native model driver", "harness/props/c13.py (interpreted rebuild of every kernel)"]
